@@ -21,6 +21,6 @@ For each change n = 1, 2 write into /tmp/adv/{pid}.out/<n>/:
   patch.diff   — `git diff` of the change (relative to the worktree HEAD; must apply with `git apply` to a clean checkout)
   a demonstration — a Go test file (say where it goes in the tree) or a small program + run.sh that FAILS with the change applied and PASSES without it
   README.md    — what the change is, why it breaks the property, what exactly is needed for it to manifest, and the commands you ran with their results (build, existing tests, demo with and without the patch)
-Verify all of that yourself (build, existing tests pass with the patch, demo fails with it and passes without it). After saving each patch restore the tree (`git -C /tmp/adv/{pid} checkout -- . && git -C /tmp/adv/{pid} clean -fdq`) so the two patches are independent.
+Verify all of that yourself (build, existing tests pass with the patch, demo fails with it and passes without it). After saving each patch restore the tree (`git -C /tmp/adv/{pid} checkout -- . && git -C /tmp/adv/{pid} clean -fdq`) so the two patches are independent. NEVER use `git stash` (the stash is shared between all worktrees of this repository and other testers work concurrently); never commit.
 
 Environment: offline sandbox, nothing can be downloaded. In every shell call: `export GOPROXY=off GOSUMDB=off GOTOOLCHAIN=local`; run go commands as `go build -mod=mod ./...`, `go test -mod=mod -vet=off -count=1 ./some/pkg/...` (do NOT set GOFLAGS). The machine is shared and slow at times; prefer package-level test runs. Finish with a report of at most 150 words (what the two changes are and where the files are).""")
